@@ -1,3 +1,4 @@
 package nbs
 
 const verifBoundN = 3
+const verifBoundJournalBytes = 24
